@@ -3,7 +3,8 @@
 use serde_json::json;
 
 use super::common::*;
-use crate::hist::{Driver, Op, World};
+use crate::asm;
+use crate::hist::{self, Ctx, Driver, Enc, Op, Target, World};
 use crate::obs::{self, ObsMode};
 use crate::report::{Spec, WorkerReport};
 use crate::rpc::{self, Resp};
@@ -13,7 +14,7 @@ pub fn spec() -> Spec {
     Spec {
         prop: "C01",
         level: "exploration",
-        rule: "Chains of reorg rounds on generated histories (all op kinds, commits at random boundaries, clearCaches/reopen). Per round: acceptance is predicted by a model (accept iff N <= height and N + 10 >= highest block ever finalised on that directory); an accepted reorg is compared, over the universe of all identifiers incl. orphaned ones, with a fresh instance fed only the surviving history up to N, then both are extended with the same new blocks (re-touching orphaned keys) and compared again; a refused reorg must leave Obs unchanged. Non-trivial = accepted reorg whose orphaned suffix had >=1 successful transaction; distinct by (history digest, N).",
+        rule: "Chains of reorg rounds on generated histories (all op kinds, commits at random boundaries, clearCaches/reopen). Per round: acceptance is predicted by a model (accept iff N <= height and N + 10 >= highest block ever finalised on that directory); an accepted reorg is compared, over the universe of all identifiers incl. orphaned ones, with a fresh instance fed only the surviving history up to N, then both are extended with the same new blocks (re-touching orphaned keys) and compared again; a refused reorg must leave Obs unchanged. One shard in twelve also rolls back a block that rewrote all of more than 65 536 storage slots of one contract and checks every slot through a summing view. Non-trivial = accepted reorg whose orphaned suffix had >=1 successful transaction; distinct by (history digest, N).",
         assumptions: vec![
             "the fresh twin has a smaller 'highest block ever finalised'; acceptance is judged against the model only, never across twins".into(),
             "Obs = public read surface; bugs shared by the rolled-back and the fresh instance are invisible (C13 checks the table level against a model)".into(),
@@ -176,6 +177,99 @@ pub fn one_chain(ctx: &WorkerCtx, rep: &mut WorkerReport, case_seed: u64, rounds
     drop_driver(r);
 }
 
+/// Many keys: one contract with more than 65 536 storage slots, all rewritten in an orphaned block.
+/// After the reorg every slot must be back (checked through a summing view of the contract, against
+/// the value the history implies and against a fresh twin), also after extending both.
+fn many_slots_case(ctx: &WorkerCtx, rep: &mut WorkerReport, case_seed: u64) {
+    let (net, _) = net_for_shard(ctx.shard);
+    let mut rng = crate::rng::Rng::new(case_seed);
+    let mut r = new_driver("C01");
+    r.exec(Op::Init { hash: hist::ZERO_HASH.into(), ts: 1, height: 0 });
+    let pk = "5120a9a9a9a9a9a9a9a9a9a9a9a9a9a9a9a9a9a9a9a9a9a9a9a9a9a9a9a9a9a9a9".to_string();
+    let block = |r: &mut Driver, uniq: u64, to: Option<&str>, data: Vec<u8>| -> Resp {
+        let h = hist::bh(0xc01_5107 + uniq);
+        let ctx = Ctx { ts: 10 + uniq, hash: h.clone(), idx: 0 };
+        let iid = format!("c01-slots-{}i0", uniq);
+        let resp = match to {
+            None => r.exec(Op::Deploy { pk: pk.clone(), data: hist::hx(&data), enc: Enc::Hex, ctx, iid, len: 1_000_000, txid: hist::ZERO_HASH.into() }),
+            Some(t) => r.exec(Op::Call { pk: pk.clone(), target: Target::Addr(t.to_string()), data: Some(hist::hx(&data)), enc: Enc::Hex, ctx, iid, len: 1_000_000, txid: hist::ZERO_HASH.into() }),
+        };
+        r.exec(Op::Finalise { ts: 10 + uniq, hash: h, count: 1 });
+        resp
+    };
+    let dep = block(&mut r, 1, None, asm::rangestore_init());
+    let Some(store) = hist::created_address(&dep) else {
+        rep.inconclusive("range-store deployment failed");
+        drop_driver(r);
+        return;
+    };
+    let n = 65_600 + rng.below(900);
+    let ok = |x: &Resp| hist::receipts_in(x).first().map(|rc| rc["status"].as_str() == Some("0x1")).unwrap_or(false);
+    if !ok(&block(&mut r, 2, Some(&store), asm::rangestore_call(false, 0, n, 1))) {
+        rep.inconclusive("writing the slots failed");
+        drop_driver(r);
+        return;
+    }
+    let keep = r.height as u64;
+    if rng.chance(2, 3) {
+        r.exec(Op::Commit);
+    }
+    // orphaned blocks: everything rewritten, then a few slots once more
+    let _ = block(&mut r, 3, Some(&store), asm::rangestore_call(false, 0, n, 2));
+    if rng.chance(1, 2) {
+        r.exec(Op::Commit);
+    }
+    let _ = block(&mut r, 4, Some(&store), asm::rangestore_call(false, rng.below(n - 600), 500, 3));
+    let sum = |d: &mut Driver| -> Option<u128> {
+        let mut total = 0u128;
+        let mut at = 0u64;
+        while at < n {
+            let c = (n - at).min(30_000);
+            match d.inst.call("eth_call", json!([{"to": store, "data": hist::hx(&asm::rangestore_call(true, at, c, 0))}])) {
+                Resp::Ok(serde_json::Value::String(s)) => total += u128::from_str_radix(&s.trim_start_matches("0x")[32..], 16).ok()?,
+                _ => return None,
+            }
+            at += c;
+        }
+        Some(total)
+    };
+    let before = sum(&mut r);
+    let resp = r.exec(Op::Reorg { n: keep });
+    rep.evaluations += 1;
+    if !resp.is_ok() {
+        violation(rep, "C01", ctx.seed, "refused-inside-window", format!("reorg({}) two blocks back was refused: {}", keep, resp.short()), json!({"case_seed": case_seed}));
+        drop_driver(r);
+        return;
+    }
+    let mut f = new_driver("C01");
+    for op in r.prefix_ops(keep) {
+        f.exec(op);
+    }
+    let check = |rep: &mut WorkerReport, r: &mut Driver, f: &mut Driver, want: u128, when: &str| -> bool {
+        let (sr, sf) = (sum(r), sum(f));
+        rep.evaluations += 1;
+        if sr != Some(want) || sf != Some(want) {
+            violation(rep, "C01", ctx.seed, "reorg-many-slots", format!("{}: the {} slots of the contract sum to {:?} on the rolled-back instance and {:?} on the fresh one; the history implies {}", when, n, sr, sf, want),
+                json!({"case_seed": case_seed, "network": net, "slots": n, "sum_before_reorg": format!("{:?}", before)}));
+            return false;
+        }
+        true
+    };
+    if check(rep, &mut r, &mut f, n as u128, "after the reorg") {
+        // extend both identically
+        let data = asm::rangestore_call(false, 5, 10, 9);
+        let (a, b) = (block(&mut r, 5, Some(&store), data.clone()), block(&mut f, 5, Some(&store), data));
+        if !same(&a, &b) {
+            violation(rep, "C01", ctx.seed, "extension-differs:call", "after the reorg the same new call is answered differently by the rolled-back instance and by a fresh replay".into(), json!({"case_seed": case_seed, "reorged": a.short(), "fresh": b.short()}));
+        } else if check(rep, &mut r, &mut f, n as u128 + 80, "one block after the reorg") {
+            rep.nontrivial(format!("many-slots:{}", n));
+            rep.count("many_slots_cases", 1);
+        }
+    }
+    drop_driver(r);
+    drop_driver(f);
+}
+
 pub fn worker(ctx: &WorkerCtx) -> WorkerReport {
     let (net, traces) = net_for_shard(ctx.shard);
     crate::setup_env(net, traces);
@@ -190,6 +284,10 @@ pub fn worker(ctx: &WorkerCtx) -> WorkerReport {
     for _ in 0..chains {
         let cs = rng.next();
         one_chain(ctx, &mut rep, cs, rounds);
+    }
+    if ctx.shard % 12 == 5 {
+        let cs = rng.next();
+        many_slots_case(ctx, &mut rep, cs);
     }
     rep.set_add("networks", net);
     rep
